@@ -11,6 +11,6 @@ CONSTANTS
   Callbacks = {0, 4, 6, 7}
   Ns = {2, 3, 8, 50}
   MaxUpd = 1000
-  MaxOps = 24
+  MaxOps = 18
 INVARIANT EmitAtEnd
 CHECK_DEADLOCK FALSE
